@@ -17,7 +17,7 @@ def execute(job):
 
 def nontrivial(job, trace):
     ops = [e["op"] for e in job["events"]]
-    return ("rollback" in ops or "commit" in ops) and any(o in ("tx_add", "tx_remove") for o in ops)
+    return ("rollback" in ops or "commit" in ops) and any(o in ("tx_add", "tx_addN", "tx_remove") for o in ops)
 
 
 def gen(own, wrappers, depth, init):
@@ -45,7 +45,13 @@ def random_history(rng, two):
         r = rng.random()
         t = [rng.choice(S[w]), rng.choice(P), rng.choice(O)]
         g = rng.choice(names)
-        if r < 0.4:
+        if r < 0.08:
+            # a batch, now and then with a repeated quad
+            qs = [[rng.choice(S[w]), rng.choice(P), rng.choice(O), rng.choice(names)] for _ in range(rng.randint(1, 3))]
+            if rng.random() < 0.5:
+                qs.append(list(qs[0]))
+            evs.append({"op": "tx_addN", "w": w, "quads": qs})
+        elif r < 0.4:
             evs.append({"op": "tx_add", "w": w, "g": g, "t": t})
         elif r < 0.8:
             pat = [t[0]] + [x if rng.random() < 0.5 else "_" for x in t[1:]]
